@@ -244,7 +244,7 @@ impl TypeChecker {
     }
 
     /// Writing through `obj.field = ...` / `obj[i] = ...` mutates the binding `obj` is rooted in, which must be `mut`.
-    fn check_place_is_mutable(&mut self, object: &Spanned<Expr>, span: Span) {
+    pub(crate) fn check_place_is_mutable(&mut self, object: &Spanned<Expr>, span: Span) {
         let Some(root) = Self::place_root_name(&object.node) else {
             return;
         };
